@@ -54,6 +54,10 @@ def gen_seq(r, depth):
 
 
 def c_str(s):
+    """a Coq term of type list N; printable ASCII goes through a string literal (parsing thousands of
+    numerals is what makes coqc slow on the case file)"""
+    if all(32 <= ord(c) <= 126 for c in s):
+        return '(s2l "%s")' % s.replace('"', '""')
     return core.coq_str(s)
 
 
@@ -105,6 +109,7 @@ def size(seq):
 IMPORTS_HEAD = ("From TxV Require Import Core.Base Core.Show Model.Rx Model.RrelSyntax Model.RrelSyntaxText.\n"
                 "Open Scope string_scope.\n")
 IMPORTS_DEFS = (
+           "Fixpoint s2l (s : string) : list N := match s with EmptyString => nil | String a t => cons (Ascii.N_of_ascii a) (s2l t) end.\n"
            # printing long strings is what costs time in coqc: texts and dumps are compared through a hash
            "Fixpoint hs (s : string) (h : N) : N := match s with EmptyString => h\n"
            "  | String a t => hs t (N.modulo (h * 1000003 + Ascii.N_of_ascii a) 1099511627776) end.\n"
@@ -275,7 +280,12 @@ def run(chk):
         muts.append(t)
     IMPORTS = IMPORTS_HEAD + ucls_table(mine + muts) + IMPORTS_DEFS
     exprs = ["tr {| eseq := %s; eflags := %s |}" % (c_seq(seq), c_str(fl)) for seq, fl in asts] + ["pt %s" % c_str(t) for t in muts]
-    allvals, errs = core.coq_eval("C12a", IMPORTS, exprs, shard=450)
+    nproc = core.NPROC
+    core.NPROC = min(nproc, 6 if chk.thorough else 3)    # every coqc start costs seconds: few, larger shards
+    try:
+        allvals, errs = core.coq_eval("C12a", IMPORTS, exprs, shard=450)
+    finally:
+        core.NPROC = nproc
     vals, mvals = allvals[:len(asts)], allvals[len(asts):]
     disagreements, failures = [], []
     if errs:
